@@ -5,7 +5,6 @@ use crate::outstation::database::{UpdateInfo, UpdateOptions};
 use crate::outstation::ApplicationIin;
 use crate::verif::engine::*;
 use crate::verif::props::ost::*;
-use crate::verif::props::ost::Rec;
 use crate::verif::rig::outstation::*;
 use crate::verif::wire::app::{self as ra, func, iin1, iin2, Fragment, WalkErr};
 use crate::verif::wire::link as rl;
@@ -86,6 +85,9 @@ struct Outstanding {
     t_tx: u64,
     /// the confirm deadline may have been hit exactly: neither outcome is judged
     uncertain: bool,
+    /// identical retransmissions seen so far (unsolicited)
+    retries: u32,
+    is_null: bool,
 }
 
 pub struct Findings {
@@ -93,6 +95,9 @@ pub struct Findings {
     pub c03: Option<Fail>,
     /// C13 clauses
     pub c13: Option<Fail>,
+    /// C14 clauses
+    pub c14: Option<Fail>,
+    pub nontrivial_c14: bool,
     /// panics / spins / malformed transmissions (reported by both)
     pub common: Option<Fail>,
     pub labels: Vec<String>,
@@ -130,6 +135,17 @@ struct Sess<'a> {
     disable_seq: Option<u8>,
     /// confirm modes of broadcasts sent but not yet seen processed (OutstationInformation::broadcast_received)
     sent_broadcasts: std::collections::VecDeque<u8>,
+    // --- C14 model ---
+    startup_done: bool,
+    /// classes enabled for unsolicited reporting (bit0 = class 1), as acknowledged by the outstation
+    enabled: u8,
+    /// ENABLE/DISABLE requests whose reply has not been seen yet: (seq, enable, mask)
+    pending_enable: std::collections::VecDeque<(u8, bool, u8)>,
+    /// when the last data-bearing unsolicited series ended without confirmation
+    unsol_failed_at: Option<u64>,
+    /// until then it is unknown whether a retry delay is running (confirm sent exactly at the deadline)
+    delay_uncertain_until: Option<u64>,
+    last_unsol_seq: Option<u8>,
 }
 
 fn label(f: &mut Findings, l: &str) {
@@ -147,6 +163,11 @@ impl<'a> Sess<'a> {
     fn fail13(&mut self, clause: &str, detail: String) {
         if self.f.c13.is_none() {
             self.f.c13 = Some(Fail::new(clause, detail));
+        }
+    }
+    fn fail14(&mut self, clause: &str, detail: String) {
+        if self.f.c14.is_none() {
+            self.f.c14 = Some(Fail::new(clause, detail));
         }
     }
     fn failed(&self) -> bool {
@@ -318,8 +339,27 @@ impl<'a> Sess<'a> {
         if unsol {
             if let Some(o) = &mut self.out_unsol {
                 if self.frags[o.frag].bytes == bytes {
+                    // U4: an unchanged retry, after the confirm timeout, at most the configured number of times
+                    let early = t.saturating_sub(o.t_tx) < CONFIRM_TIMEOUT;
+                    o.retries += 1;
+                    let (retries, is_null, seq) = (o.retries, o.is_null, o.seq);
                     o.t_tx = t;
                     label(&mut self.f, "unsol_retry");
+                    if !is_null {
+                        label(&mut self.f, "data_series_retried");
+                        self.f.nontrivial_c14 = true;
+                    }
+                    if early {
+                        self.fail14("U4-retry-before-timeout", format!("unsolicited seq {seq} re-sent before its confirm timeout expired"));
+                    }
+                    if is_null {
+                        self.fail14("U1-null-response-not-regenerated", format!("the empty start-up unsolicited response seq {seq} was re-sent unchanged instead of with a fresh sequence number"));
+                    }
+                    if let Some(max) = self.case.retries {
+                        if retries > max as u32 {
+                            self.fail14("U4-too-many-retries", format!("unsolicited seq {seq} re-sent {retries} times, configured maximum {max}"));
+                        }
+                    }
                     return;
                 }
             }
@@ -383,6 +423,29 @@ impl<'a> Sess<'a> {
         // had been deferred behind an unsolicited response shows that this unsolicited series is over as well
         self.expire_at(t);
         if unsol {
+            self.judge_new_unsolicited(&f, &ids, t);
+        } else if f.fir {
+            if let Some(pos) = self.pending_enable.iter().position(|x| x.0 == f.seq) {
+                let (_, enable, mask) = self.pending_enable.remove(pos).unwrap();
+                let rejected = f.iin.map(|x| x.1 & 0x07 != 0).unwrap_or(true);
+                if !rejected {
+                    if enable {
+                        self.enabled |= mask;
+                    } else {
+                        self.enabled &= !mask;
+                    }
+                }
+            }
+            // U7: a READ received during the unsolicited confirm wait is answered only when the series has ended
+            if self.deferred_read_seq == Some(f.seq) {
+                if let Some(o) = &self.out_unsol {
+                    if !o.uncertain && t.saturating_sub(o.t_tx) < CONFIRM_TIMEOUT {
+                        self.fail14("U7-read-answered-during-unsolicited-wait", format!("READ seq {} was answered at t={t} while unsolicited seq {} (sent at {}) was still awaiting its confirmation", f.seq, o.seq, o.t_tx));
+                    }
+                }
+            }
+        }
+        if unsol {
             if let Some(o) = self.out_unsol.take() {
                 if !self.frags[o.frag].ids.is_empty() {
                     self.unconfirmed_carrier_seen = true;
@@ -397,6 +460,12 @@ impl<'a> Sess<'a> {
                 self.deferred_read_seq = None;
                 if let Some(o) = self.out_unsol.take() {
                     label(&mut self.f, "deferred_read_answered");
+                    label(&mut self.f, "deferred_read");
+                    self.f.nontrivial_c14 = true;
+                    if !o.is_null {
+                        // the series was given up (timed out) in favour of the deferred READ
+                        self.unsol_failed_at = Some(t);
+                    }
                     if !self.frags[o.frag].ids.is_empty() {
                         self.unconfirmed_carrier_seen = true;
                         self.unsol_series_failed = true;
@@ -416,9 +485,79 @@ impl<'a> Sess<'a> {
             self.disable_answered();
         }
         if unsol {
-            self.out_unsol = Some(Outstanding { frag: no, seq: f.seq, t_tx: t, uncertain: false });
+            self.out_unsol = Some(Outstanding { frag: no, seq: f.seq, t_tx: t, uncertain: false, retries: 0, is_null: f.objects.is_empty() });
         } else if f.con {
-            self.out_sol = Some(Outstanding { frag: no, seq: f.seq, t_tx: t, uncertain: built_in_unsol_wait });
+            self.out_sol = Some(Outstanding { frag: no, seq: f.seq, t_tx: t, uncertain: built_in_unsol_wait, retries: 0, is_null: false });
+        }
+    }
+
+    /// C14 clauses for a newly built unsolicited response (called after the previous one was expired by time)
+    fn judge_new_unsolicited(&mut self, f: &Fragment, ids: &[u64], t: u64) {
+        let is_null = f.objects.is_empty();
+        if let Some(o) = self.out_unsol.clone() {
+            // the previous response is neither confirmed nor (by time) exhausted
+            if !o.uncertain {
+                self.fail14(
+                    "U3-new-unsolicited-while-previous-outstanding",
+                    format!("unsolicited seq {} sent at t={t} although seq {} (last sent at {}) was neither confirmed nor timed out", f.seq, o.seq, o.t_tx),
+                );
+            } else if !o.is_null && !self.frags[o.frag].ids.is_empty() {
+                // the old series ends at this very instant
+                self.unsol_failed_at = Some(t);
+            }
+            if o.seq == f.seq {
+                self.fail14("U4-retry-not-identical", format!("unsolicited sequence number {} re-used with different content", f.seq));
+            }
+        }
+        if !self.startup_done && !is_null {
+            self.fail14("U1-data-before-null-confirmed", format!("unsolicited seq {} carries objects although no empty start-up response has been confirmed yet", f.seq));
+        }
+        if let Some(ls) = self.last_unsol_seq {
+            if f.seq != (ls + 1) & 0x0F {
+                self.fail14("U1-sequence-not-fresh", format!("new unsolicited response uses seq {} after {}", f.seq, ls));
+            }
+        }
+        self.last_unsol_seq = Some(f.seq);
+        for id in ids {
+            let class = self.events.get(id).map(|e| e.class).unwrap_or(0);
+            if class == 0 || self.enabled & (1 << (class - 1)) == 0 {
+                self.fail14("U2/U6-class-not-enabled", format!("unsolicited seq {} carries event {id} of class {class}, enabled mask {:#05b}", f.seq, self.enabled));
+            }
+        }
+        if !is_null {
+            if let Some(tf) = self.unsol_failed_at {
+                if t < tf + RETRY_DELAY {
+                    self.fail14("U5-retry-delay", format!("a new unsolicited series started at t={t}, only {} ms after the previous one failed (retry delay {RETRY_DELAY})", t - tf));
+                }
+            }
+        }
+    }
+
+    /// U8: nothing stands in the way of an unsolicited response, so one must be outstanding
+    fn check_progress(&mut self) {
+        if !self.case.unsolicited || !self.startup_done || !self.rig.connected() || self.out_unsol.is_some() || self.out_sol.is_some() || self.deferred_read_seq.is_some() {
+            return;
+        }
+        if !self.pending_enable.is_empty() {
+            return;
+        }
+        let now = self.rig.now_ms();
+        if let Some(tf) = self.unsol_failed_at {
+            if now <= tf + RETRY_DELAY {
+                return;
+            }
+        }
+        if let Some(tu) = self.delay_uncertain_until {
+            if now <= tu {
+                return;
+            }
+        }
+        let waiting: Vec<u64> = self.events.iter().filter(|(_, e)| !e.discarded && !e.released && e.class >= 1 && self.enabled & (1 << (e.class - 1)) != 0).map(|(id, _)| *id).collect();
+        if !waiting.is_empty() {
+            self.fail14(
+                "U8-no-unsolicited-progress",
+                format!("at t={now}: events {:?} of enabled classes (mask {:#05b}) are buffered, nothing is outstanding and no retry delay is pending, yet no unsolicited response was sent", waiting, self.enabled),
+            );
         }
     }
 
@@ -659,7 +798,16 @@ impl<'a> Sess<'a> {
                     self.unsol_series_failed = true;
                     label(&mut self.f, "unsol_series_timed_out");
                 }
+                if !o.is_null {
+                    self.unsol_failed_at = Some(o.t_tx + CONFIRM_TIMEOUT);
+                    self.f.nontrivial_c14 = true;
+                }
+                let (seq, t_end) = (o.seq, o.t_tx + CONFIRM_TIMEOUT);
                 self.out_unsol = None;
+                if let Some(rs) = self.deferred_read_seq {
+                    self.fail14("U7-deferred-read-dropped", format!("READ seq {rs} was received while unsolicited seq {seq} awaited its confirmation; the series ended at t={t_end} but the READ was never answered"));
+                    self.deferred_read_seq = None;
+                }
             } else if el == CONFIRM_TIMEOUT {
                 o.uncertain = true;
             }
@@ -734,6 +882,9 @@ impl<'a> Sess<'a> {
     /// response is outstanding.
     fn disable_answered(&mut self) {
         if let Some(o) = self.out_unsol.take() {
+            if !o.is_null {
+                self.unsol_failed_at = Some(self.rig.now_ms());
+            }
             if !self.frags[o.frag].ids.is_empty() {
                 self.unconfirmed_carrier_seen = true;
                 self.unsol_series_failed = true;
@@ -743,6 +894,13 @@ impl<'a> Sess<'a> {
     }
 
     async fn step(&mut self, op: &Op) {
+        self.step_inner(op).await;
+        if !self.failed() {
+            self.check_progress();
+        }
+    }
+
+    async fn step_inner(&mut self, op: &Op) {
         if std::env::var("VERIF_TRACE").is_ok() {
             println!("[op @{}] {:?}   out_sol={:?} out_unsol={:?}", self.rig.now_ms(), op, self.out_sol, self.out_unsol);
         }
@@ -780,7 +938,20 @@ impl<'a> Sess<'a> {
                     (Some(o), false) => ((o.seq + 1 + delta % 15) & 0x0F, None),
                     (None, _) => (*delta & 0x0F, None),
                 };
-                if confirmed.is_some() {
+                let mut was_deferred = None;
+                if let Some((frag, uncertain)) = confirmed {
+                    if !uncertain {
+                        if self.out_unsol.as_ref().map(|o| o.is_null).unwrap_or(false) {
+                            self.startup_done = true;
+                        } else {
+                            self.unsol_failed_at = None;
+                        }
+                        was_deferred = self.deferred_read_seq;
+                    } else if self.out_unsol.as_ref().map(|o| !o.is_null).unwrap_or(false) && !self.frags[frag].ids.is_empty() {
+                        // confirmed or failed at this very instant: the retry delay may or may not apply
+                        self.unsol_failed_at = None;
+                        self.delay_uncertain_until = Some(self.rig.now_ms() + RETRY_DELAY);
+                    }
                     self.out_unsol = None;
                 } else {
                     label(&mut self.f, "wrong_or_stale_confirm");
@@ -788,6 +959,13 @@ impl<'a> Sess<'a> {
                 self.note_confirm_sent(confirmed);
                 self.rig.send(&Fragment::confirm(seq, true));
                 self.settle_and_process(confirmed).await;
+                if let Some(rs) = was_deferred {
+                    label(&mut self.f, "deferred_read");
+                    self.f.nontrivial_c14 = true;
+                    if self.deferred_read_seq == Some(rs) {
+                        self.fail14("U7-deferred-read-dropped", format!("READ seq {rs} was deferred behind an unsolicited response; that response has been confirmed but the READ was not answered"));
+                    }
+                }
             }
             Op::Advance(which, ms) => {
                 let dt = match which % 5 {
@@ -828,17 +1006,26 @@ impl<'a> Sess<'a> {
                 let f = enable_unsol(seq, enable, &classes);
                 self.note_request_sent(f.func);
                 self.disable_seq = if enable { None } else { Some(seq) };
+                self.pending_enable.push_back((seq, enable, mask & 7));
                 self.rig.send(&f);
                 self.settle_and_process(None).await;
             }
             Op::Reconnect => {
                 label(&mut self.f, "reconnect");
+                if let Some(o) = &self.out_unsol {
+                    if o.uncertain && !o.is_null {
+                        // the series may have timed out at this very instant, starting a retry delay
+                        self.delay_uncertain_until = Some(self.rig.now_ms() + RETRY_DELAY);
+                    }
+                }
                 for o in [self.out_sol.take(), self.out_unsol.take()].into_iter().flatten() {
                     if !self.frags[o.frag].ids.is_empty() {
                         self.unconfirmed_carrier_seen = true;
                         label(&mut self.f, "reconnect_with_events_in_flight");
                     }
                 }
+                self.deferred_read_seq = None;
+                self.pending_enable.clear();
                 self.rig.disconnect().await;
                 self.process(None);
                 self.rig.connect().await;
@@ -955,7 +1142,7 @@ pub async fn run_history(case: &Case, c13_ops: bool) -> Findings {
         seq: 0,
         point_serial: BTreeMap::new(),
         global_serial: 0,
-        f: Findings { c03: None, c13: None, common: None, labels: vec![], nontrivial_c03: false, nontrivial_c13: false },
+        f: Findings { c03: None, c13: None, c14: None, nontrivial_c14: false, common: None, labels: vec![], nontrivial_c03: false, nontrivial_c13: false },
         overflowed: false,
         restart: true,
         broadcast_pending: None,
@@ -968,6 +1155,12 @@ pub async fn run_history(case: &Case, c13_ops: bool) -> Findings {
         deferred_read_seq: None,
         disable_seq: None,
         sent_broadcasts: Default::default(),
+        startup_done: false,
+        enabled: 0,
+        pending_enable: Default::default(),
+        unsol_failed_at: None,
+        delay_uncertain_until: None,
+        last_unsol_seq: None,
     };
     s.settle_and_process(None).await;
     if case.unsolicited && case.confirm_null {
